@@ -141,6 +141,19 @@ def run_multi_case(rng, res: CaseResult):
         else:
             targets = rng.sample(sorted(common), min(len(common), rng.choice([1, 1, 2])))
             st = {'op': 'force', 'chain': 'mc', 'tasks': targets}
+            # tasks named by their short form (group levels left out) where that identifies one task in every member
+            shorts = []
+            for n_ in targets:
+                bare = n_.split('::')[-1].split(':')[-1]
+                if '::' not in n_ and ':' in n_ and all(sum(1 for m_ in r_.tasks if m_.split('::')[-1].split(':')[-1] == bare) == 1 for r_ in refs):
+                    shorts.append(bare)
+                else:
+                    shorts = None
+                    break
+            if shorts and rng.random() < 0.6:
+                st['model_tasks'] = targets
+                st['tasks'] = shorts
+                res.count('multi_force_by_short_name')
             if rng.random() < 0.3:
                 st['delete_data'] = True
             if rng.random() < 0.5:
@@ -302,7 +315,7 @@ def run_multi_case(rng, res: CaseResult):
                 res.violate(f'{here}: MultiChain.force raised {o.get("exc")}: {o.get("msg")}', witness=witness, facts={'tag': 'force_failed'})
                 return
             for i in range(k):
-                objs = model.closure(chains[i], st['tasks'])
+                objs = model.closure(chains[i], st.get('model_tasks', st['tasks']))
                 model.force(chains[i], objs, bool(st.get('delete_data')))
         elif st['op'] == 'inspect':
             mi = st['mi']
